@@ -10,7 +10,8 @@ _T = ['C14_2', 'C14_2_rowdict_sound', 'C14_2_rowdict_complete', 'C14_2_iff', 'C1
       'C14_3', 'C14_3_exact', 'C14_3_pushed_stored', 'C14_3_nullable', 'C14_3_mentions_only', 'C14_3_on', 'C14_3_on_outer', 'C14_3_on_mentions_only',
       'C14_4_values_from_using', 'C14_4_last_wins', 'C14_4_unprefixed', 'C14_4_foreign_prefix', 'C14_4_own_prefix',
       'C14_4_partition_size_removed', 'C14_5_sound', 'C14_5_complete', 'C14_5_neutralised', 'C14_where_clauses',
-      'C14_limit_plain_row', 'C14_limit_needs_use_limit', 'C14_1', 'C14_1_nodup', 'C14_1_plan', 'C14_1_apply_input', 'C14_1_predictor_first',
+      'C14_limit_plain_row', 'C14_limit_needs_use_limit', 'C14_cat_project_via_metadata', 'C14_cat_model_any_case',
+      'C14_cat_model_default_project', 'C14_cat_case_invariant', 'C14_1', 'C14_1_nodup', 'C14_1_plan', 'C14_1_apply_input', 'C14_1_predictor_first',
       'C14_partial', 'C14_5_swap', 'C14_rewrite_keeps_table', 'C14_obs_non_equality_mapped',
       'C14_target_stays']
 THEOREMS = ['MindsVerif.Props.C14.' + t for t in _T]
@@ -30,7 +31,9 @@ ASSUME = [
     '`col IN :Result` derived from ON equalities are C08\'s subject and exempt from the "top-level conjunct" clause; '
     '"no longer filters the outer result" = the residual WHERE accepts every row the original accepted',
     'routing of operands to integrations / projects (which identifier is a model) is C10\'s subject; the harness decides '
-    'it independently from the catalog and a disagreement shows as a divergence',
+    'it independently from the catalog (names compared case-insensitively, both forms of predictor_metadata, projects known '
+    'only as the project of a model, predictor_namespace) and a disagreement shows as a divergence, as a wrong apply-step '
+    'count, or as model-join-rejected',
 ]
 
 
@@ -42,6 +45,8 @@ def cases_for(chk, n):
     rng = common.rng_for(chk.seed, 'C14')
     for i, sql in enumerate(mj.SEEDS):
         yield 0, sql, 'seed'
+    for ci, sql in mj.SEEDS_CAT:
+        yield ci, sql, 'seed'
     for i in range(n):
         ci = rng.randrange(len(mj.CATALOGS))
         yield ci, mj.Gen(rng, ci).query(), 'gen'
@@ -69,12 +74,23 @@ def run(chk):
         dist['impl:' + (out if out.startswith('exc') else 'plan')] += 1
         if out.startswith('exc:Internal'):
             dist['internal:' + r['exc'][:60]] += 1
+        if r.get('rejected'):
+            # the catalog (independent reading) knows every operand, yet the planner does not find it
+            f = dict(cls='model-join-rejected:integration-not-found', sql=sql, catalog=ci,
+                     desc='every operand is qualified by a name of the catalog (or a default namespace exists), but the planner '
+                          'raises: %s' % r['rejected'])
+            f['class'] = f['cls']
+            nfail[f['cls']] += 1
+            if nfail[f['cls']] <= 3:
+                chk.classify(f, kf_match)
+                chk.fail(f)
         lines.append(r['line'])
-        metas.append((ci, sql, out))
+        metas.append((ci, sql, r['route'] + ' || ' + out))
         if 'view' in r:
             nops = len(r['ops'])
             dist['operands:%d' % nops] += 1
             dist['models:%d' % sum(1 for o in r['ops'] if o.kind == 'mod')] += 1
+            dist['catalog:%d' % ci] += 1
             if r['info']['limit'] is not None:
                 dist['limit:' + ('aggregates' if r['aggregates'] else 'rows')] += 1
             if r['where'] is not None:
@@ -96,7 +112,7 @@ def run(chk):
         outs = common.lean_run('ModelJoin', lines)
         diverged, first = 0, None
         for (ci, sql, out), o in zip(metas, outs):
-            if out.startswith('exc:Internal'):
+            if 'exc:Internal' in out:
                 continue
             if out != o:
                 diverged += 1
@@ -126,6 +142,8 @@ def run(chk):
     chk.samples.append(dict(theorem='C14_limit_plain_row: a fetch step of a produced plan carries LIMIT / OFFSET / ORDER BY only if the query has '
                                     'no HAVING, GROUP BY, DISTINCT and no aggregate node anywhere in the select list'))
     chk.samples.append(dict(theorem='C14_partial : C14_full (all clauses of the statement, for all inputs)'))
+    chk.samples.append(dict(theorem='C14_cat_model_any_case: (some p, n) in catalog.models, lower q = lower p, lower m = lower n, m not a version '
+                                    '-> catalog.isModel [q, m] and catalog.routable [q, m] (also when p is known only through predictor_metadata)'))
     return chk.finish(assumptions=ASSUME)
 
 
@@ -136,6 +154,12 @@ def replay(path):
         print(json.dumps(data, indent=1)[:4000])
         return 1
     r = mj.run_real(f['sql'], mj.CATALOGS[f.get('catalog', 0)])
+    if f.get('cls', '').startswith('model-join-rejected'):
+        if r.get('rejected'):
+            print('REPRODUCED %s\n  sql : %s\n  what: %s' % (f['cls'], f['sql'], r['rejected']))
+            return 1
+        print('not reproduced', json.dumps(f)[:500])
+        return 0
     if 'view' not in r:
         print('not reproduced (no plan): %s' % r.get('out', r.get('skip')))
         return 0
